@@ -87,6 +87,8 @@ void pbt_generate(Rng& r, int size, Case& c) {
   int n = 1 + (int)r.below((uint64_t)size + 1);
   bool deep = r.chance(2);
   if (deep) { int d = 50 + (int)r.below(r.chance(10) ? 950 : 250); for (int k = 0; k < d; ++k) c.add("open", (long)r.below(8)); c.add("text", (long)r.below(20)); c.params["deco"] = (long)r.below(1 << 30); return; }
+  // wide documents: a thousand and more siblings without content under a few levels (nesting depth is bounded, breadth is not)
+  if (r.chance(1)) { int lv = (int)r.below(4); for (int k = 0; k < lv; ++k) c.add("open", (long)r.below(8)); c.add("empties", 900 + (long)r.below(1800), (long)r.below(8)); c.add("open", (long)r.below(8)); c.add("text", (long)r.below(20)); c.params["deco"] = (long)r.below(1 << 30); return; }
   static const char* names[] = {"open", "attr", "text", "close", "v_elem", "v_text", "v_copy", "v_assign", "v_mutate", "v_clear"};
   static const int w[] = {14, 16, 12, 12, 2, 2, 3, 3, 4, 1};
   for (int k = 0; k < n; ++k) {
@@ -123,6 +125,7 @@ void pbt_run(const Case& cs, Ctx& ctx) {
     const std::string& nm = op.name; std::string d = op.data; for (auto& ch : d) if (!ch) ch = '0';
     if (nm == "open") { Node* p = resolve(open.back()); Node c; c.name = NAMES[((op.a[0] % 8) + 8) % 8]; p->kids.push_back(c); std::vector<size_t> pth = open.back(); pth.push_back(p->kids.size() - 1); open.push_back(pth); if ((int)open.size() - 1 > maxDepth) maxDepth = (int)open.size() - 1; }
     else if (nm == "close") { if (open.size() > 1) open.pop_back(); }
+    else if (nm == "empties") { Node* p = resolve(open.back()); long cnt = std::max(0L, std::min(3000L, op.a[0])); Node c; c.name = NAMES[((op.a[1] % 8) + 8) % 8]; for (long q = 0; q < cnt; ++q) p->kids.push_back(c); if (cnt >= 1000) ctx.label("siblings>=1000"); }
     else if (nm == "attr") {
       Node* p = resolve(open.back()); if (!p->kids.empty()) { ctx.count("skipped"); continue; }  // attributes are given before content (keeps the model simple)
       std::string an = std::string(NAMES[((op.a[0] % 8) + 8) % 8]) + (op.a[1] ? std::to_string(op.a[1]) : "");
